@@ -21,6 +21,7 @@ EXPLANATION = ("Family-wide rules over every Source/Environment/Filter class (fa
                "call; R4 randomness on read paths comes from a CobaRandom constructed in the same call; R5 "
                "environments.Cache hands out copies.")
 EXPLANATION += ' R3 also summarises helper closures (a parameter a closure mutates must be bound to an object created in this call at every call site); R8: positionally aligned lists that are cross-indexed are changed in lockstep.'
+EXPLANATION += ' R2 now rejects temporary rewrites of self state (overlapping reads); R6 covers a failing source (buffer and iterator dropped together); R9: memoised functions that draw from a generator never evict.'
 
 PRIM = "coba/primitives.py"
 EF = "coba/environments/filters.py"
